@@ -1,9 +1,60 @@
 import RefurbVerif.Wire.Basic
+import RefurbVerif.Model.Gates
+import RefurbVerif.Generated.Gates
 open Lean
 
 namespace RefurbVerif.Wire
 
-/-- driver verbs of this group (filled in by the property that owns it) -/
-def handleGates (_verb : String) (_j : Json) : Option Json := none
+def verJ (v : Ver) : Json := Json.arr #[v.major, v.minor]
+
+def toVer (j : Json) (k : String) : Option Ver :=
+  match j.getObjVal? k with
+  | .ok (.arr #[a, b]) =>
+    match a.getNat?, b.getNat? with
+    | .ok x, .ok y => some ⟨x, y⟩
+    | _, _ => none
+  | _ => none
+
+def featureJ (i : Nat) : Json :=
+  Json.mkObj [("name", (Generated.featureNames[i]?).getD "<out of range>"),
+    ("since", optJ verJ (sinceAt (resolve Generated.featureNames) i))]
+
+/-- driver verbs of C15:
+    `gate` {code, version:[maj,min]} — what the model (generated table, clamped outside the sweep) says the check does;
+    `target` {configured: [maj,min] | null, running: [maj,min]} — `Settings.get_python_version`;
+    `gateshape` {kind: always|returnBelow|switchFrom, t, v} — the abstract gate;
+    `introduced` — the reference table (so the harness can check its own reading of Introduced.lean). -/
+def handleGates (verb : String) (j : Json) : Option Json :=
+  match verb with
+  | "gate" =>
+    let v := (toVer j "version").getD ⟨0, 0⟩
+    match findCheck Generated.gates (nat j "code") with
+    | none => some (Json.mkObj [("found", false)])
+    | some ck =>
+      let row := ck.rowAt Generated.tableMin Generated.tableMax v
+      let ids := (row.map (·.variants)).getD []
+      let vars := ck.variants.filter (fun var => ids.contains var.id)
+      some (Json.mkObj [
+        ("found", true),
+        ("reports", ck.reportsAt v),
+        ("threshold", optJ verJ ck.threshold),
+        ("rowReports", optJ (fun (r : Row) => Json.bool r.reports) row),
+        ("variants", Json.arr (vars.map (fun var => Json.mkObj [
+          ("text", var.text), ("features", Json.arr (var.features.map featureJ).toArray)])).toArray)])
+  | "target" =>
+    let running := (toVer j "running").getD ⟨0, 0⟩
+    some (verJ (getPythonVersion (toVer j "configured") running))
+  | "gateshape" =>
+    let t := (toVer j "t").getD ⟨0, 0⟩
+    let v := (toVer j "v").getD ⟨0, 0⟩
+    let g := match str j "kind" with
+      | "returnBelow" => Gate.returnBelow t
+      | "switchFrom" => Gate.switchFrom t
+      | _ => Gate.always
+    some (Json.mkObj [("reports", g.reports v), ("usesFeature", g.usesFeature v)])
+  | "introduced" =>
+    some (Json.arr (introduced.map (fun e => Json.mkObj [
+      ("name", e.name), ("since", verJ e.since), ("tokens", toJson e.tokens)])).toArray)
+  | _ => none
 
 end RefurbVerif.Wire
